@@ -364,6 +364,7 @@ def build_cases(rng, tier, seed=0):
         stats["regroupings"] += len(rgs)
         # quick: a full site case for every other forest (which half rotates with the seed)
         site_budget = (1 if (fi + seed) % 2 == 0 else 0) if tier == "quick" else None
+        site_pick = set(rng.sample(range(len(rgs)), min(len(rgs), 8))) if tier == "thorough" else set()
         for ri, (lines, trailing) in enumerate(rgs):
             nperm = math.factorial(len(lines))
             n_arr += nperm
@@ -381,8 +382,10 @@ def build_cases(rng, tier, seed=0):
                     gs = [(rng.sample(cs, len(cs)), p) for cs, p in gs]
                     tr = rng.sample(tr, len(tr))
                 cases.append(mk_case(gs, tr, "forest", sites=False))
-            # sites: one arrangement per regrouping (thorough), one per forest (quick)
-            if tier == "thorough" or (site_budget and rng.random() < 3.0 / len(rgs)):
+            # sites (every (object type, required type) pair at every site): they depend on the parsed table only,
+            # which is compared for EVERY arrangement above; thorough: up to 8 regroupings of every forest, each in a
+            # random order of its lines; quick: one arrangement for every other forest
+            if (tier == "thorough" and ri in site_pick) or (site_budget and rng.random() < 3.0 / len(rgs)):
                 if tier == "quick":
                     site_budget = 0
                 perm = rng.sample(lines, len(lines))
@@ -457,8 +460,24 @@ def run(args):
     # about 12 shards or more (parallelism without paying the library load too often), at most 700 cases / 110 kB of literals per shard (parse time)
     verdicts, info = run_case_shards(PROP, "Corr.C06", [r["lit"] for r in records],
                                      shard_size=max(40, min(700, -(-len(records) // 12))), max_bytes=110_000)
+    # a shard that failed to evaluate (coqc killed or a shared .vo rebuilt under it while other checks run) is
+    # evaluated again, at most twice; what still fails is reported by decide() as a broken correspondence
+    retried = 0
+    for _attempt in range(2):
+        bad = [i for i, ch in enumerate(verdicts) if ch == "?"]
+        if not bad:
+            break
+        retried += len(bad)
+        v2, info2 = run_case_shards(PROP, "Corr.C06", [records[i]["lit"] for i in bad],
+                                    shard_size=max(40, min(700, -(-len(bad) // 12))), max_bytes=110_000)
+        vl = list(verdicts)
+        for i, ch in zip(bad, v2):
+            vl[i] = ch
+        verdicts = "".join(vl)
+        info = {"shards": info["shards"], "shard_errors": info2["shard_errors"], "cmd": info["cmd"]}
     _t_coq = _time.time() - _t0 - _t_impl
-    decide(rep, PROP, "Corr.C06", records, verdicts, info, explain_expr="explain %s")
+    decide(rep, PROP, "Corr.C06", records, verdicts, info, explain_expr="explain (%s)")
+    rep.coverage["cases_reevaluated_after_a_failed_shard"] = retried
     cov = rep.coverage
     cov["phase_seconds"] = {"implementation": round(_t_impl, 1), "coq_case_shards": round(_t_coq, 1)}
     cov["input_distribution"] = dict(Counter(c["kind"] for c in cases))
@@ -492,7 +511,7 @@ def run(args):
                    "repository's fixture domains.  Non-trivial: some type has a declared parent other than object (depth >= 2); distinct by input hash."
                    % (stats.get("forests", "-"),
                       "EVERY permutation" if exhaustive else "a sample of the permutations",
-                      "one arrangement per regrouping" if args.tier == "thorough" else "one arrangement for every other forest, the half rotating with the seed"))
+                      "up to 8 regroupings of every forest" if args.tier == "thorough" else "one arrangement for every other forest, the half rotating with the seed"))
     cov["samples"] = [{k: c[k] for k in ("groups", "trailing", "kind")} for c in cases[:2] + cases[len(cases) // 2:len(cases) // 2 + 2] + cases[-1:]]
     cov["explanation"] = ("theorems C06_* (Props/C06.v) proved on the Coq model for all sections; model tied to /repo by the cases above, "
                           "spec oracle = Spec.Types.closure_b evaluated inside Coq")
